@@ -29,6 +29,38 @@ def epochs_of(zone: str, d: date, hh: int, mm: int) -> List[int]:
     return out
 
 
+_ABBR = {}
+
+
+def abbreviations(zone: str) -> tuple:
+    """The (standard, daylight) abbreviation pair of a zone around 2026, as time.tzname would show it."""
+    if zone not in _ABBR:
+        tz = ZoneInfo(zone)
+        names = {}
+        for month in range(1, 13):
+            dt = datetime(2026, month, 15, 12, tzinfo=tz)
+            names[bool(dt.dst())] = dt.tzname()
+        std = names.get(False) or names.get(True)
+        _ABBR[zone] = (std, names.get(True, std))
+    return _ABBR[zone]
+
+
+def confusable(zone: str, epoch: float, zones) -> list:
+    """Other zones that share this zone's UTC offset at `epoch` (but differ within a day of it), or share its abbreviation pair
+    (but not its offset): what a cache keyed by 'the offset now' or by time.tzname cannot tell apart."""
+    out = []
+    off = local(zone, epoch).utcoffset()
+    for z in zones:
+        if z == zone:
+            continue
+        off_z = local(z, epoch).utcoffset()
+        same_now = off_z == off
+        differs_soon = any(local(z, epoch + k * 3600).utcoffset() != local(zone, epoch + k * 3600).utcoffset() for k in (-24, -12, -6, 6, 12, 24, 36))
+        if (same_now and differs_soon) or (abbreviations(z) == abbreviations(zone) and not same_now):
+            out.append(z)
+    return out
+
+
 def hhmm_of(zone: str, epoch: int) -> str:
     dt = local(zone, epoch)
     return f"{dt.hour:02d}:{dt.minute:02d}"
